@@ -321,6 +321,7 @@ type scriptLine struct {
 }
 
 type Script struct {
+	skip func(*Obligation) bool
 	lines []scriptLine
 	n     int
 	obs   []*Obligation
@@ -453,6 +454,13 @@ func (sc *Script) renderIncremental() string {
 			continue
 		}
 		ob := l.ob
+		if sc.skip != nil && sc.skip(ob) {
+			// not an obligation of the property being checked: not decided in this run, only assumed like every earlier one
+			if !ob.Cover && !ob.NoAssume {
+				b.WriteString("(assert " + implies(ob.Guard, ob.Cond).S + ")\n")
+			}
+			continue
+		}
 		b.WriteString("(push 1)\n")
 		if ob.Cover {
 			// covers are expected to be sat; with quantifiers the answer is usually unknown: do not wait for it
